@@ -443,7 +443,7 @@ _A_LK = ["lock objects come from store.CreateLock (etcd: meta.ETCD on embedded e
          "Enter is logged after Lock returned and Exit before Unlock is called, under one sequence counter: a logged overlap is a real overlap",
          "real time: try-lock must fail within 400 ms (normal ~1 ms; redis retry back-off is 500 ms); a wait may give up at most 600 ms before its timeout (redis polls every 500 ms)"]
 prop("C18", "lock", "3-6 contenders x seeded random hold times (0-30 ms, some longer than the wait timeout) mixing lock and try-lock on one key, both backends; non-trivial = critical sections entered", _A_LK)
-prop("C19", "lock", "holder's lease revoked (etcd: lease of the lowest-revision key under the lock prefix) or TTL elapsed (miniredis FastForward plus real time) while a second contender waits; bound = ttl/3 + 700 ms; non-trivial = induced losses",
+prop("C19", "lock", "holder's lease revoked (etcd: lease of the lowest-revision key under the lock prefix) or TTL elapsed (miniredis FastForward plus real time) while a second contender waits; bound = ttl/3 + 700 ms (+ 500 ms on etcd: its client's keepalive loop wakes every 500 ms); non-trivial = induced losses",
      _A_LK + ["miniredis keeps virtual time: the redis TTL is elapsed both in real time and with FastForward"])
 
 
@@ -850,6 +850,39 @@ def fam_store_conc(tier, base):
 
 
 ALSO["C13"] = ["store_conc"]
+
+
+# =========================================================================== Lock loss inside a multi-lock critical section: C19
+@family("lock_section")
+def fam_lock_section(tier, base):
+    q = tier == "quick"
+    r = verif.model_check("MC_LockSection", "MC_LockSection.cfg", timeout=600, workers=1)
+    rl = verif.tlc("MC_LockSection", "MC_LockSection_lastonly.cfg", timeout=600, workers=1)
+    if not rl.error or "SectionFollowsLocks" not in rl.error:
+        raise Broken("LockSection with unchained contexts: expected SectionFollowsLocks to fail, got %s" % rl.error)
+    inputs, trace = base + ".in.ndjson", base + ".trace.ndjson"
+    allin = list(dict.fromkeys(r.tagged("INPUT")))
+    reps = 1 if q else 6
+    with open(inputs, "w") as f:
+        f.write("\n".join(allin * reps) + "\n")
+    b = verif.build_driver("cluster")
+    verif.run_driver_sharded(b, "TestClusterLockSection", inputs, trace, shards=4 if q else 6, timeout=7000)
+    os.remove(inputs)
+    viols, tr = verif.validate_trace("Trace_LockSection", "Trace_LockSection.cfg", trace)
+    lines = verif.read_lines(trace)
+    evs = [json.loads(x) for x in lines]
+    judged = [e for e in evs if e.get("reached") and e.get("revoked") and not e.get("starved")]
+    if len(judged) < len(evs) * 0.6:
+        raise Broken("lock-section driver: only %d of %d runs could be judged (section not reached, lease not found, or the scheduler was starved)" % (len(judged), len(evs)))
+    told = sorted(e["toldMs"] for e in judged)
+    return dict(trace=trace, viols=viols, states=r.distinct, transitions=r.generated, configs=["MC_LockSection.cfg", "MC_LockSection_lastonly.cfg", "Trace_LockSection.cfg"], window=0,
+                traces={"*": len(judged)}, samples={"*": evs[:3]}, nontrivial={"C19": sum(1 for e in judged if e["lose"] < e["nlocks"])},
+                notes="%d runs: capacity query / deployment over nodes of 1..3 pods (1..3 pod locks) parked inside the critical section, the lease of each held lock in turn revoked in etcd; "
+                      "the section's context (the one its plugin call was given) done after %s ms (min / median / max), bound ttl/3 + 500 ms (keepalive loop granularity of the etcd client) + 700 ms = 2200 ms; "
+                      "the model with unchained contexts fails SectionFollowsLocks as expected" % (len(judged), "%d / %d / %d" % (told[0], told[len(told) // 2], told[-1]) if told else "-"))
+
+
+ALSO["C19"] = ["lock_section"]
 
 
 # =========================================================================== Engine cache (beyond the listed properties; diagnostic)
